@@ -119,6 +119,24 @@ def check(run):
         cases.append((L, P, s, eM, f))
     run.attempt("corr:corr_evalH", kern.corr_evalH, run, cases, rotors if not quick else rotors[:14] + rotors[-3:], preps, poison=float("nan"))
     gap(run, quick)
+    # memory layouts of the weights and of the rotor array
+    from .. import layouts
+    import quaternionic as _q
+    import spherical
+    wl_ = spherical.Wigner(7)
+    Rs_ = _q.array(np.array([helpers.random_rotor(run.rng) for _ in range(3)]))
+    RF_ = _q.array(np.asfortranarray(np.array([helpers.random_rotor(run.rng) for _ in range(6)]).reshape(2, 3, 4)))
+    RC_ = _q.array(np.ascontiguousarray(RF_.ndarray))
+    layouts.sweep_modes(run, "evaluate", [("evaluate[horner=True]", lambda f: wl_.evaluate(f, Rs_, horner=True)), ("evaluate[horner=False]", lambda f: wl_.evaluate(f, Rs_, horner=False)),
+                                          ("Modes.evaluate", lambda f: f.evaluate(Rs_)), ("evaluate[horner=True,F-rotors]", lambda f: wl_.evaluate(f, RF_, horner=True))],
+                        [-2, 0, 1] if quick else range(-3, 4), exact=lambda nm: "True" in nm)
+    for s_ in (0, -1):
+        f_ = helpers.make_modes(run.rng, s_, 4, (2,))
+        for h_ in (True, False):
+            a_, b_ = np.asarray(wl_.evaluate(f_, RF_, horner=h_)), np.asarray(wl_.evaluate(f_, RC_, horner=h_))
+            run.gap_case("memory-layouts", ("rotors", s_, h_), "layout|F-rotors")
+            if not layouts.same(a_, b_, exact=h_):
+                run.violation("result-depends-on-memory-layout", f"Wigner.evaluate[horner={h_}]", {"s": s_, "rotor_array": "Fortran-ordered (2,3,4)", "ell_max": 4}, "same as for C-ordered rotors", "differs")
     run.assumptions += ["BLAS matmul and spinsfast are external: compared numerically only", "rounding tolerance 64 (ell+2)^1.5 eps * max row 1-norm of the weights (fixed multiple)"]
 
 
